@@ -128,6 +128,17 @@ func TestC05Auth(t *testing.T) {
 			verdict := func(x *cand) bool {
 				return x.okBySignature && x.signer != nil && x.msg != nil && tableAuthorizes(state, x.msg, x.signer)
 			}
+			verdictCheckTx := func(x *cand) bool {
+				if !x.okBySignature || x.signer == nil || x.msg == nil {
+					return false
+				}
+				for _, a := range authorizedAddresses(state, x.msg) {
+					if bytes.Equal(a, x.signer) {
+						return true
+					}
+				}
+				return false
+			}
 			var goods, bads []*cand
 			// ---- one authorized transaction (or a revocation pair)
 			revocation := false
@@ -135,9 +146,9 @@ func TestC05Auth(t *testing.T) {
 				p := genPayload(rt, w)
 				gi := rapid.IntRange(0, len(p.rightful)-1).Draw(rt, "rightful-role")
 				s := pick(rt, "rightful-form", p.rightful[gi])
-				grind := (s.Kind == cs.KindEd || s.Kind == cs.KindSecp) && rapid.IntRange(0, 2).Draw(rt, "grind") == 0
+				grind := (s.Kind == cs.KindEd || s.Kind == cs.KindSecp) && rapid.IntRange(0, 1).Draw(rt, "grind") == 0
 				claim := ""
-				if rapid.IntRange(0, 3).Draw(rt, "claim-signer-field") == 0 {
+				if rapid.IntRange(0, 1).Draw(rt, "claim-signer-field") == 0 {
 					// the rightful signer fills the wire's Signer field with a victim: the field must be derived from the verified signer
 					victim := pick(rt, "claimed-victim", w.owners)[0]
 					switch m := p.msg.(type) {
@@ -184,6 +195,12 @@ func TestC05Auth(t *testing.T) {
 					case fam <= 3: // valid signature by a key the table does not list
 						ws, roles := wrongSigners(w, p)
 						j := rapid.IntRange(0, len(ws)-1).Draw(rt, "wrong-signer")
+						for k, role := range roles {
+							if role == "own-operator-redirecting-the-output" && rapid.Bool().Draw(rt, "own-operator") {
+								j = k
+								break
+							}
+						}
 						if x, ok := signedCand(rt, w, ws[j], p.msg); ok {
 							x.desc = fmt.Sprintf("%s(%s) by %s %s", p.msg.Name(), p.about, roles[j], ws[j])
 							x.class = []string{"bad=wrong-signer", "msg=" + p.msg.Name(), "signer=" + cs.SignerKindName(ws[j].Kind), "role=" + roles[j]}
@@ -298,7 +315,8 @@ func TestC05Auth(t *testing.T) {
 				for _, x := range all {
 					_, err := on.FSM.CheckTx(x.bz, crypto.HashString(x.bz), nil)
 					on.FSM.Reset()
-					if err == nil && !verdict(x) && !(revocation && x.class[0] == "bad=revoked-in-block") {
+					// CheckTx decides signature + signer list only; the "only the output may redirect the output" rule lives in the handler
+					if err == nil && !verdictCheckTx(x) && !(revocation && x.class[0] == "bad=revoked-in-block") {
 						rt.Fatalf("VIOLATION C05: single verification path (FSM.CheckTx, %s, cache=%s) ACCEPTS [%s] although the table/signature oracle forbids it", when, cache, x.desc)
 					}
 				}
